@@ -137,7 +137,21 @@ fn scenario(prefixes: &[(String, Life)], writes: &[(u8, String, String)], local_
             _ => false,
         };
         let want = if effective_insert { sa.expected(key, value, &aid) } else { vec![] };
-        compare(&sa, want, &format!("{what} (local)"), out);
+        // the statement speaks of keys set "to a new value": a write that keeps the value and only changes the
+        // status (e.g. set on a TTL-marked key) may or may not notify
+        let same_value_other_status = effective_insert && before.as_ref().map(|b| b.0 == *value).unwrap_or(false);
+        if same_value_other_status {
+            let got = sa.take();
+            let mut w = want.clone();
+            w.sort();
+            out.c.inc("events_checked");
+            out.c.inc("same_value_status_changes");
+            if !got.is_empty() && got != w {
+                out.findings.push(Finding::new(&["C15"], "listener.calls", format!("{what} (local, value unchanged): calls made {got:?} are neither none nor the expected {w:?}")));
+            }
+        } else {
+            compare(&sa, want, &format!("{what} (local)"), out);
+        }
         if local_only {
             continue;
         }
